@@ -298,6 +298,8 @@ class Engine:
             bits, signed = self.int_info(t)
             return ite_int(c, a, b, bits, signed)
         if k == 'string':
+            if isinstance(a, Opaque) or isinstance(b, Opaque):
+                return a if isinstance(a, Opaque) else b      # opaque text (log / error messages) stays opaque
             if isinstance(a, bytes) and isinstance(b, bytes) and a == b:
                 return a
             return sym_ite_str(c, a, b)
